@@ -292,3 +292,32 @@ def gen_preempt(rng, gen='G-sim-preempt'):
     arrivals.sort(key=lambda a: a[0])
     return dict(gen=gen, algo='priority', tps=tps, over=0, multi=rng.choice([1, 1, 1, 0]), npools=npools, cpu=cpu, ram=ram,
                 duration=nticks / tps, pipes=pipes, segs=segs, arrivals=arrivals)
+
+
+def gen_saturate(rng, algo, gen='G-sim-saturate'):
+    """more work than the pools can hold: many pipelines arriving within a few ticks, 1-CPU slices (5-19 CPUs per
+    pool), a quarter of the operators above the RAM slice so that OOM retries (doubling) compete for the last
+    free CPUs and GBs of a pool"""
+    tps = rng.choice([1, 2, 10])
+    npools = 2 if algo == 'priority-pool' else rng.choice([1, 2, 3])
+    cpu = rng.choice([5, 6, 7, 8, 10, 12, 16, 19])
+    ram = rng.choice([40, 100, 200])
+    share = ram // 10
+    nticks = rng.choice([40, 80, 150])
+    pipes, segs, arrivals = [], [], []
+    n = rng.randint(npools * cpu, 3 * npools * cpu)
+    for k in range(n):
+        pr = rng.choice([1, 2, 2, 3, 3, 3])
+        nops = 1 if pr == 1 else rng.randint(1, 3)
+        pipes.append((pr, [[j - 1] if j else [] for j in range(nops)]))
+        ops = []
+        for _ in range(nops):
+            r = rng.random()
+            mem = share * (rng.choice([0.25, 0.5, 1.0]) if r < 0.7 else rng.choice([1.5, 2.0]) if r < 0.92 else rng.choice([3.0, 6.0]))
+            ops.append([dict(baseline_cpu_seconds=float(rng.randint(2, 9)) / tps, cpu_scaling='const',
+                             storage_read_gb=0.0, memory_gb=float(mem))])
+        segs.append(ops)
+        arrivals.append((rng.choice([0, 0, 1, 2, 3]) if rng.random() < 0.6 else rng.randrange(0, nticks // 2), k))
+    arrivals.sort(key=lambda a: a[0])
+    return dict(gen=gen, algo=algo, tps=tps, over=1 if algo == 'overbook' else 0, multi=1, npools=npools, cpu=cpu, ram=ram,
+                duration=nticks / tps, pipes=pipes, segs=segs, arrivals=arrivals)
